@@ -441,3 +441,117 @@ def hand_corpus():
     for t in HAND_PATTERNS:
         out.append((parse(t), t))
     return out
+
+# ---------------------------------------------------------------- several terms at once: tagged automaton (first-listed priority)
+class TaggedRefDFA:
+    """subset construction over the union of the terms' position automata; accept tag = lowest term index"""
+    def __init__(self, asts, state_cap=20000):
+        self.gl = [Glushkov(a) for a in asts]
+        sets = []; self.owner = []; self.base = []
+        for ti, g in enumerate(self.gl):
+            self.base.append(len(sets))
+            for s in g.sets: sets.append(s); self.owner.append(ti)
+        self.sets = sets
+        sig = {}
+        for b in range(256):
+            key = tuple(b in s for s in sets)
+            sig.setdefault(key, []).append(b)
+        self.classes = list(sig.values()); self.class_of = [0] * 256
+        for ci, bs in enumerate(self.classes):
+            for b in bs: self.class_of[b] = ci
+        rep = [bs[0] for bs in self.classes]
+        first = set(); follow = [None] * len(sets); last = set()
+        for ti, g in enumerate(self.gl):
+            o = self.base[ti]
+            first |= {o + p for p in g.first}; last |= {o + p for p in g.last}
+            for p, f in enumerate(g.follow): follow[o + p] = {o + q for q in f}
+        START = -1
+        start = frozenset([START]); self.index = {start: 0}; self.trans = []; self.tag = []
+        work = [start]
+        nullable_tags = [ti for ti, g in enumerate(self.gl) if g.nullable]
+        while work:
+            st = work.pop(); i = self.index[st]
+            while len(self.trans) <= i: self.trans.append(None); self.tag.append(-1)
+            tags = [self.owner[p] for p in st if p != START and p in last]
+            if START in st: tags += nullable_tags
+            self.tag[i] = min(tags) if tags else -1
+            row = []
+            for b in rep:
+                nxt = set()
+                for p in st:
+                    for q in (first if p == START else follow[p]):
+                        if b in sets[q]: nxt.add(q)
+                if not nxt: row.append(-1); continue
+                fs = frozenset(nxt); j = self.index.get(fs)
+                if j is None:
+                    j = len(self.index); self.index[fs] = j; work.append(fs)
+                    if j > state_cap: raise OverflowError('reference DFA too large')
+                row.append(j)
+            self.trans[i] = row
+    def step(self, s, b):
+        return -1 if s < 0 else self.trans[s][self.class_of[b]]
+    def longest(self, data, pos):
+        """(term, length) of the longest non-empty match at pos, first-listed term on ties; (None, 0) if none"""
+        s = 0; best = (None, 0); n = 0
+        for k in range(pos, len(data)):
+            s = self.step(s, data[k])
+            if s < 0: break
+            n += 1
+            if self.tag[s] >= 0: best = (self.tag[s], n)
+        return best
+    def deterministic(self):
+        """the union needs no determinisation: no two positions with intersecting byte sets in the joint first set or in any follow set"""
+        def clash(ps):
+            seen = set()
+            for p in ps:
+                if seen & self.sets[p]: return True
+                seen |= self.sets[p]
+            return False
+        first = set()
+        for ti, g in enumerate(self.gl): first |= {self.base[ti] + p for p in g.first}
+        if clash(first): return False
+        for ti, g in enumerate(self.gl):
+            for f in g.follow:
+                if clash({self.base[ti] + q for q in f}): return False
+        return True
+
+def tagged_equivalent(ref, obs, max_pairs=300000):
+    """obs: ObsDFA with .rec; returns None or a shortest string on which the winning term differs"""
+    def otag(o):
+        if o < 0 or o >= obs.n: return -1
+        return obs.rec[o][0]
+    seen = {(0, 0 if obs.n else -1): None}; queue = [(0, 0 if obs.n else -1)]; qi = 0
+    while qi < len(queue):
+        r, o = queue[qi]; qi += 1
+        # the empty string is never a lexeme: tags are compared on non-empty strings only
+        if seen[(r, o)] is not None and (ref.tag[r] if r >= 0 else -1) != otag(o):
+            w = bytearray(); cur = (r, o)
+            while seen[cur] is not None:
+                prev, byte = seen[cur]; w.append(byte); cur = prev
+            return bytes(reversed(w))
+        if len(seen) > max_pairs: raise OverflowError('product too large')
+        done = set()
+        for byte in range(256):
+            rn = ref.step(r, byte) if r >= 0 else -1
+            on = obs.step(o, byte) if o >= 0 else -1
+            if rn < 0 and on < 0: continue
+            key = (rn, on)
+            if key in done: continue
+            done.add(key)
+            if key not in seen: seen[key] = ((r, o), byte); queue.append(key)
+    return None
+
+def sample_string(ast, rnd, depth=0):
+    """a random member of the language of ast"""
+    k = ast[0]
+    if k == 'set':
+        s = ast[1]
+        pref = [b for b in s if 0x20 < b < 0x7f]
+        return bytes([rnd.choice(pref if pref and rnd.random() < 0.9 else sorted(s))])
+    if k == 'grp': return sample_string(ast[1], rnd, depth)
+    if k == 'cat': return sample_string(ast[1], rnd, depth) + sample_string(ast[2], rnd, depth)
+    if k == 'alt': return sample_string(ast[1 + (rnd.random() < 0.5)], rnd, depth)
+    if k == 'star': return b''.join(sample_string(ast[1], rnd, depth + 1) for _ in range(rnd.choice([0, 1, 2, 3] if depth < 2 else [0, 1])))
+    if k == 'plus': return b''.join(sample_string(ast[1], rnd, depth + 1) for _ in range(rnd.choice([1, 2, 3] if depth < 2 else [1])))
+    if k == 'opt': return sample_string(ast[1], rnd, depth) if rnd.random() < 0.5 else b''
+    if k == 'rep': return b''.join(sample_string(ast[1], rnd, depth) for _ in range(ast[2]))
